@@ -1,25 +1,1627 @@
-//! C03, C16: executable contract of analyze_dir on enumerated directory trees
-use crate::report::CheckResult;
+//! C03, C16 (bounded): executable contract of `analyze_dir` on enumerated directory trees.
+//!
+//! C03  for every category, every selected pattern set P and every tree T:
+//!        for p in P:  multiset(result[p]) == { (file_name(f), analyze_for_*(contents(f), _, p)) :
+//!                                              f eligible file under T at any depth, analyze_for_*(..) != {} }
+//!        keys(result) is a subset of P and no key maps to an empty list.
+//!      The oracle calls the real per-file entry points itself, so the check is about the walk and the merge.
+//! C16  eligible(f) <=> name(f) ends in ".sol" (case-sensitive) and lower(name(f)) does not end in ".t.sol".
+//!        result(T) == result(T without its ineligible files), no ineligible file makes the run panic,
+//!        every eligible file with findings is analysed, no ineligible file is.
+//!
+//! Trees are really built under std::env::temp_dir(); the listing order every comparison is attributed to is
+//! the one observed through fs::read_dir on the built tree (never assumed).
+use crate::json::J;
+use crate::report::{CheckResult, Rng};
+use solstat::analyzer::{optimizations as opt, qa, vulnerabilities as vul};
+use std::cell::Cell;
+use std::collections::{BTreeMap, BTreeSet, HashMap};
+use std::fs;
+use std::panic::{self, AssertUnwindSafe};
+use std::path::{Path, PathBuf};
+use std::sync::atomic::{AtomicUsize, Ordering};
+use std::sync::Mutex;
 
-/// Returns Some(exit code) when `cmd` belongs to this module.
-pub fn dispatch(cmd: &str, rest: &[String], tier: &str, seed: u64) -> Option<i32> {
-    let _ = (rest, tier, seed);
-    match cmd {
-        "c03" => {
-            println!("{}", todo("c03").to_json().render());
-            Some(0)
+// ------------------------------------------------------------------------------------------------
+// the three categories behind one interface
+// ------------------------------------------------------------------------------------------------
+
+const CAT_NAMES: [&str; 3] = ["optimizations", "vulnerabilities", "qa"];
+
+/// (category, index into get_all_*()); index 255 = a key the library returned that get_all_*() does not list
+#[derive(Clone, Copy, PartialEq, Eq, PartialOrd, Ord, Hash, Debug)]
+struct Pat(u8, u8);
+
+macro_rules! with_cat {
+    ($cat:expr, $all:ident, $file_fn:ident, $dir_fn:ident, $body:block) => {
+        match $cat {
+            0 => {
+                let $all = opt::get_all_optimizations();
+                let $file_fn = opt::analyze_for_optimization;
+                let $dir_fn = opt::analyze_dir;
+                $body
+            }
+            1 => {
+                let $all = vul::get_all_vulnerabilities();
+                let $file_fn = vul::analyze_for_vulnerability;
+                let $dir_fn = vul::analyze_dir;
+                $body
+            }
+            _ => {
+                let $all = qa::get_all_qa();
+                let $file_fn = qa::analyze_for_qa;
+                let $dir_fn = qa::analyze_dir;
+                $body
+            }
         }
-        "c16" => {
-            println!("{}", todo("c16").to_json().render());
-            Some(0)
+    };
+}
+
+fn n_pats(cat: u8) -> usize {
+    with_cat!(cat, all, _f, _d, { all.len() })
+}
+
+fn pat_name(p: Pat) -> String {
+    with_cat!(p.0, all, _f, _d, { all.get(p.1 as usize).map(|x| format!("{:?}", x)).unwrap_or_else(|| "?".to_string()) })
+}
+
+/// the REAL per-file entry point
+fn real_file(p: Pat, src: &str, file_number: usize) -> Vec<i64> {
+    with_cat!(p.0, all, f, _d, { f(src, file_number, all[p.1 as usize]).into_iter().map(|x| x as i64).collect() })
+}
+
+type Entries = Vec<(String, Vec<i64>)>;
+
+/// the REAL directory entry point; the map is returned as a list, nothing is normalised away
+fn real_dir(cat: u8, dir: &str, pats: &[Pat]) -> Vec<(Pat, String, Entries)> {
+    with_cat!(cat, all, _f, d, {
+        let sel = pats.iter().map(|p| all[p.1 as usize]).collect();
+        d(dir, sel)
+            .into_iter()
+            .map(|(k, v)| {
+                let idx = all.iter().position(|x| *x == k).map(|i| i as u8).unwrap_or(255);
+                (Pat(cat, idx), format!("{:?}", k), v.into_iter().map(|(n, l)| (n, l.into_iter().map(|x| x as i64).collect())).collect())
+            })
+            .collect()
+    })
+}
+
+thread_local! { static QUIET: Cell<bool> = Cell::new(false); }
+
+fn install_hook() {
+    panic::set_hook(Box::new(|info| {
+        if !QUIET.with(|q| q.get()) {
+            eprintln!("vxn dirs: harness panic: {}", info);
         }
-        _ => None,
+    }));
+}
+
+/// run real code; a panic becomes Err(message)
+fn guarded<T>(f: impl FnOnce() -> T) -> Result<T, String> {
+    QUIET.with(|q| q.set(true));
+    let r = panic::catch_unwind(AssertUnwindSafe(f));
+    QUIET.with(|q| q.set(false));
+    r.map_err(|e| {
+        if let Some(s) = e.downcast_ref::<&str>() {
+            s.to_string()
+        } else if let Some(s) = e.downcast_ref::<String>() {
+            s.clone()
+        } else {
+            "non-string panic payload".to_string()
+        }
+    })
+}
+
+fn slug(s: &str, max: usize) -> String {
+    let mut o = String::new();
+    for c in s.chars() {
+        if c.is_ascii_alphanumeric() {
+            o.push(c.to_ascii_lowercase());
+        } else if !o.ends_with('-') && !o.is_empty() {
+            o.push('-');
+        }
+        if o.len() >= max {
+            break;
+        }
+    }
+    o.trim_end_matches('-').to_string()
+}
+
+fn panic_kind(msg: &str) -> String {
+    if msg.contains("Unable to read file") {
+        "file-content-not-readable-as-text".into()
+    } else if msg.contains("Diagnostic") || (msg.contains("unwrap()") && msg.contains("Err")) {
+        "file-content-does-not-parse".into()
+    } else if msg.contains("Could not convert file name") || msg.contains("Could not get nested dir") {
+        "name-not-convertible".into()
+    } else {
+        slug(msg.split(':').next().unwrap_or(msg), 48)
     }
 }
 
-#[allow(dead_code)]
-fn todo(name: &str) -> CheckResult {
+// ------------------------------------------------------------------------------------------------
+// file contents
+// ------------------------------------------------------------------------------------------------
+
+/// Small fixed contracts. Every one has a `pragma solidity` line and no free function (detectors that abort
+/// without them are other properties' business). Several share patterns so that merging matters.
+const SOURCES: [&str; 6] = [
+    // 0: FloatingPragma, OptimalComparison
+    "// SPDX-License-Identifier: MIT\npragma solidity ^0.8.0;\n\ncontract A0 {\n    uint256 public total;\n\n    function cmp(uint256 x, uint256 y) public view returns (bool) {\n        return x >= y;\n    }\n}\n",
+    // 1: UnsafeERC20Operation, PrivateFuncLeadingUnderscore (public function with a leading underscore)
+    "pragma solidity 0.8.17;\n\ninterface IERC20 {\n    function transfer(address to, uint256 v) external returns (bool);\n}\n\ncontract A1 {\n    IERC20 token;\n\n    function _pay(address a, uint256 b) public {\n        token.transfer(a, b);\n    }\n}\n",
+    // 2: FloatingPragma, OptimalComparison (other line), ConstructorOrder (constructor after a function)
+    "pragma solidity ^0.8.0;\n\ncontract A2 {\n    uint256 v;\n\n    function set(uint256 x, uint256 y) external {\n        if (x >= y) {\n            v = x;\n        }\n    }\n\n    constructor() {\n        v = 1;\n    }\n}\n",
+    // 3: the patterns of 0 and 1 again, on other lines
+    "\n\n\npragma solidity ^0.8.0;\n\ninterface IT {\n    function transfer(address to, uint256 v) external returns (bool);\n}\n\ncontract A3 {\n    function _cmp(uint256 x, uint256 y) public pure returns (bool) {\n        return x >= y;\n    }\n\n    function f(address t, address a, uint256 b) public {\n        IT(t).transfer(a, b);\n    }\n}\n",
+    // 4: nearly clean (no finding for most patterns: entries must simply be absent, never empty lists)
+    "pragma solidity 0.8.17;\n\ncontract A4 {\n    uint256 private _x;\n\n    function get() external view returns (uint256) {\n        return _x;\n    }\n}\n",
+    // 5: DivideBeforeMultiply, PrivateVarsLeadingUnderscore
+    "pragma solidity 0.8.17;\n\ncontract A5 {\n    uint256 private hidden;\n\n    function m(uint256 a, uint256 b, uint256 c) internal pure returns (uint256) {\n        return a / b * c;\n    }\n}\n",
+];
+
+#[derive(Clone, Copy, PartialEq, Eq, PartialOrd, Ord, Hash, Debug)]
+enum Content {
+    Src(usize),
+    /// all 256 byte values, NULs included
+    Bin,
+    /// looks like Solidity but is not valid UTF-8
+    BadUtf8,
+    /// valid UTF-8 that does not parse
+    Garbage,
+    Empty,
+}
+
+impl Content {
+    fn code(&self) -> String {
+        match self {
+            Content::Src(k) => format!("s{}", k),
+            Content::Bin => "jb".into(),
+            Content::BadUtf8 => "ju".into(),
+            Content::Garbage => "jg".into(),
+            Content::Empty => "je".into(),
+        }
+    }
+    fn parse(s: &str) -> Option<Content> {
+        match s {
+            "jb" => Some(Content::Bin),
+            "ju" => Some(Content::BadUtf8),
+            "jg" => Some(Content::Garbage),
+            "je" => Some(Content::Empty),
+            _ => {
+                let k: usize = s.strip_prefix('s')?.parse().ok()?;
+                if k < SOURCES.len() {
+                    Some(Content::Src(k))
+                } else {
+                    None
+                }
+            }
+        }
+    }
+    fn bytes(&self) -> Vec<u8> {
+        match self {
+            Content::Src(k) => SOURCES[*k].as_bytes().to_vec(),
+            Content::Bin => (0..=255u8).chain([0u8, 0, 0xff, 0xfe, 0x7f, 0x0a, 0x0d]).collect(),
+            Content::BadUtf8 => b"pragma solidity ^0.8.0;\ncontract X { uint256 \xff\xfe\xc3\x28; }\n".to_vec(),
+            Content::Garbage => "pragma solidity ^0.8.0;\ncontract { this is ((( not Solidity ]] \u{1F600}\nfunction function\n".as_bytes().to_vec(),
+            Content::Empty => vec![],
+        }
+    }
+}
+
+/// C16's definition, taken from the property text
+fn eligible(name: &str) -> bool {
+    name.ends_with(".sol") && !name.to_lowercase().ends_with(".t.sol")
+}
+
+// ------------------------------------------------------------------------------------------------
+// the oracle: the real per-file entry points, evaluated once per (source, pattern)
+// ------------------------------------------------------------------------------------------------
+
+struct Oracle {
+    /// [source][category][index] -> Some(line set) | None when the per-file entry point itself panics
+    table: Vec<Vec<Vec<Option<Vec<i64>>>>>,
+    /// patterns whose per-file entry point panics on one of the fixed sources: never selected
+    excluded: Vec<Pat>,
+    /// (source, pattern) whose result depends on the file_number argument
+    file_number_matters: Vec<(usize, Pat)>,
+}
+
+impl Oracle {
+    fn build() -> Oracle {
+        let mut table = vec![];
+        let mut excluded = vec![];
+        let mut fnm = vec![];
+        for (si, src) in SOURCES.iter().enumerate() {
+            let mut per_cat = vec![];
+            for cat in 0..3u8 {
+                let mut v = vec![];
+                for i in 0..n_pats(cat) {
+                    let p = Pat(cat, i as u8);
+                    let a = guarded(|| real_file(p, src, 0)).ok();
+                    for other in [1usize, 7, 4096] {
+                        let b = guarded(|| real_file(p, src, other)).ok();
+                        if a != b && !fnm.contains(&(si, p)) {
+                            fnm.push((si, p));
+                        }
+                    }
+                    if a.is_none() && !excluded.contains(&p) {
+                        excluded.push(p);
+                    }
+                    v.push(a);
+                }
+                per_cat.push(v);
+            }
+            table.push(per_cat);
+        }
+        Oracle { table, excluded, file_number_matters: fnm }
+    }
+    fn lines(&self, src: usize, p: Pat) -> &[i64] {
+        match self.table[src][p.0 as usize].get(p.1 as usize) {
+            Some(Some(v)) => v,
+            _ => &[],
+        }
+    }
+    fn all(&self, cat: u8) -> Vec<Pat> {
+        (0..n_pats(cat)).map(|i| Pat(cat, i as u8)).filter(|p| !self.excluded.contains(p)).collect()
+    }
+    fn spec(&self, cat: u8, pats: &[Pat]) -> String {
+        if pats == self.all(cat).as_slice() {
+            format!("{}:*", CAT_NAMES[cat as usize])
+        } else {
+            format!("{}:{}", CAT_NAMES[cat as usize], pats.iter().map(|p| pat_name(*p)).collect::<Vec<_>>().join(","))
+        }
+    }
+    /// "optimizations:*;qa:ConstructorOrder,PrivateVarsLeadingUnderscore;vulnerabilities:" (empty set)
+    fn parse_spec(&self, s: &str) -> Result<Vec<(u8, Vec<Pat>)>, String> {
+        let mut out = vec![];
+        for part in s.split(';').map(|x| x.trim()).filter(|x| !x.is_empty()) {
+            let (c, ps) = part.split_once(':').ok_or_else(|| format!("bad pattern spec {:?}", part))?;
+            let cat = CAT_NAMES.iter().position(|n| *n == c).ok_or_else(|| format!("unknown category {:?}", c))? as u8;
+            if ps == "*" {
+                out.push((cat, self.all(cat)));
+                continue;
+            }
+            let mut v = vec![];
+            for name in ps.split(',').filter(|x| !x.is_empty()) {
+                let i = (0..n_pats(cat)).find(|i| pat_name(Pat(cat, *i as u8)) == name).ok_or_else(|| format!("unknown pattern {:?}", name))?;
+                v.push(Pat(cat, i as u8));
+            }
+            out.push((cat, v));
+        }
+        Ok(out)
+    }
+    fn describe_sources(&self) -> J {
+        let mut rows = vec![];
+        for si in 0..SOURCES.len() {
+            let mut f = vec![];
+            for cat in 0..3u8 {
+                for p in self.all(cat) {
+                    let l = self.lines(si, p);
+                    if !l.is_empty() {
+                        f.push(format!("{}{:?}", pat_name(p), l));
+                    }
+                }
+            }
+            rows.push((format!("s{}", si), J::s(f.join(" "))));
+        }
+        J::Obj(rows)
+    }
+}
+
+// ------------------------------------------------------------------------------------------------
+// trees: model, text format, building, observing
+// ------------------------------------------------------------------------------------------------
+
+#[derive(Clone, Copy, PartialEq, Eq, Debug)]
+enum Kind {
+    Dir,
+    File(Content),
+}
+
+#[derive(Clone, Debug)]
+struct Ent {
+    /// relative path, components separated by '/'
+    path: String,
+    kind: Kind,
+}
+
+/// entries in CREATION order
+#[derive(Clone, Debug)]
+struct Tree {
+    ents: Vec<Ent>,
+}
+
+fn enc(path: &str) -> String {
+    let mut o = String::new();
+    for b in path.bytes() {
+        if b.is_ascii_alphanumeric() || b == b'.' || b == b'_' || b == b'-' || b == b'/' || b == b'~' {
+            o.push(b as char);
+        } else {
+            o.push_str(&format!("%{:02X}", b));
+        }
+    }
+    o
+}
+
+fn dec(s: &str) -> Result<String, String> {
+    let b = s.as_bytes();
+    let mut out = vec![];
+    let mut i = 0;
+    while i < b.len() {
+        if b[i] == b'%' {
+            let h = s.get(i + 1..i + 3).ok_or("truncated escape")?;
+            out.push(u8::from_str_radix(h, 16).map_err(|_| "bad escape".to_string())?);
+            i += 3;
+        } else {
+            out.push(b[i]);
+            i += 1;
+        }
+    }
+    String::from_utf8(out).map_err(|_| "name is not valid UTF-8".to_string())
+}
+
+fn base_name(path: &str) -> &str {
+    path.rsplit('/').next().unwrap_or(path)
+}
+
+impl Tree {
+    /// `<code>:<path>|<code>:<path>|..`  code: d = directory, s<k> = fixed source k, jb/ju/jg/je = binary / invalid
+    /// UTF-8 / unparseable text / empty; path bytes outside [A-Za-z0-9._~/-] are %XX-escaped; order = creation order.
+    fn ser(&self) -> String {
+        self.ents
+            .iter()
+            .map(|e| {
+                let c = match e.kind {
+                    Kind::Dir => "d".to_string(),
+                    Kind::File(c) => c.code(),
+                };
+                format!("{}:{}", c, enc(&e.path))
+            })
+            .collect::<Vec<_>>()
+            .join("|")
+    }
+    fn parse(s: &str) -> Result<Tree, String> {
+        let mut ents: Vec<Ent> = vec![];
+        for part in s.trim().split('|').filter(|x| !x.is_empty()) {
+            let (c, p) = part.split_once(':').ok_or_else(|| format!("bad entry {:?}", part))?;
+            let path = dec(p)?;
+            if path.is_empty() || path.split('/').any(|x| x.is_empty() || x == "." || x == "..") {
+                return Err(format!("bad path {:?}", path));
+            }
+            let kind = if c == "d" { Kind::Dir } else { Kind::File(Content::parse(c).ok_or_else(|| format!("bad content code {:?}", c))?) };
+            if let Kind::File(ct) = kind {
+                if eligible(base_name(&path)) && !matches!(ct, Content::Src(_)) {
+                    return Err(format!("{:?} is an eligible file: it must carry one of the fixed sources", path));
+                }
+            }
+            if ents.iter().any(|e| e.path == path) {
+                return Err(format!("duplicate path {:?}", path));
+            }
+            ents.push(Ent { path, kind });
+        }
+        Ok(Tree { ents })
+    }
+    /// identity of the tree irrespective of creation order
+    fn canonical(&self) -> String {
+        let mut t = self.clone();
+        t.ents.sort_by(|a, b| a.path.cmp(&b.path));
+        t.ser()
+    }
+    fn strip_ineligible(&self) -> Tree {
+        Tree {
+            ents: self
+                .ents
+                .iter()
+                .filter(|e| match e.kind {
+                    Kind::Dir => true,
+                    Kind::File(_) => eligible(base_name(&e.path)),
+                })
+                .cloned()
+                .collect(),
+        }
+    }
+    fn has_ineligible(&self) -> bool {
+        self.ents.iter().any(|e| matches!(e.kind, Kind::File(_)) && !eligible(base_name(&e.path)))
+    }
+}
+
+static SCRATCH_N: AtomicUsize = AtomicUsize::new(0);
+
+struct Scratch(PathBuf);
+
+impl Scratch {
+    fn new() -> Scratch {
+        let n = SCRATCH_N.fetch_add(1, Ordering::SeqCst);
+        let p = std::env::temp_dir().join(format!("vxn-{}-d{}", std::process::id(), n));
+        let _ = fs::remove_dir_all(&p);
+        fs::create_dir_all(&p).expect("cannot create scratch directory");
+        Scratch(p)
+    }
+    fn path(&self) -> &Path {
+        &self.0
+    }
+    fn path_str(&self) -> String {
+        self.0.to_str().expect("temp dir path is not UTF-8").to_string()
+    }
+}
+
+impl Drop for Scratch {
+    fn drop(&mut self) {
+        let _ = fs::remove_dir_all(&self.0);
+    }
+}
+
+fn build(tree: &Tree, root: &Path) -> Result<(), String> {
+    for e in &tree.ents {
+        let p = root.join(&e.path);
+        match e.kind {
+            Kind::Dir => fs::create_dir_all(&p).map_err(|x| format!("mkdir {:?}: {}", p, x))?,
+            Kind::File(c) => {
+                if let Some(parent) = p.parent() {
+                    fs::create_dir_all(parent).map_err(|x| format!("mkdir {:?}: {}", parent, x))?;
+                }
+                fs::write(&p, c.bytes()).map_err(|x| format!("write {:?}: {}", p, x))?;
+            }
+        }
+    }
+    Ok(())
+}
+
+/// a tree as the file system lists it: children in fs::read_dir order
+#[derive(Clone, Debug)]
+struct Node {
+    name: String,
+    rel: String,
+    kind: Kind,
+    kids: Vec<Node>,
+}
+
+impl Node {
+    fn is_dir(&self) -> bool {
+        self.kind == Kind::Dir
+    }
+}
+
+fn observe(root: &Path, rel: &str, index: &HashMap<String, Kind>) -> Result<Vec<Node>, String> {
+    let dir = if rel.is_empty() { root.to_path_buf() } else { root.join(rel) };
+    let mut out = vec![];
+    for ent in fs::read_dir(&dir).map_err(|e| format!("read_dir {:?}: {}", dir, e))? {
+        let ent = ent.map_err(|e| format!("read_dir entry: {}", e))?;
+        let name = ent.file_name().to_str().ok_or("non UTF-8 name in scratch tree")?.to_string();
+        let r = if rel.is_empty() { name.clone() } else { format!("{}/{}", rel, name) };
+        let is_dir = ent.file_type().map_err(|e| e.to_string())?.is_dir();
+        let kind = match index.get(&r) {
+            Some(k) => *k,
+            None if is_dir => Kind::Dir, // implicit parent of an entry
+            None => return Err(format!("unexpected file {:?} in scratch tree", r)),
+        };
+        if is_dir != (kind == Kind::Dir) {
+            return Err(format!("{:?} has the wrong type on disk", r));
+        }
+        let kids = if is_dir { observe(root, &r, index)? } else { vec![] };
+        out.push(Node { name, rel: r, kind, kids });
+    }
+    Ok(out)
+}
+
+fn build_and_observe(tree: &Tree, sc: &Scratch) -> Result<Vec<Node>, String> {
+    build(tree, sc.path())?;
+    let index: HashMap<String, Kind> = tree.ents.iter().map(|e| (e.path.clone(), e.kind)).collect();
+    let nodes = observe(sc.path(), "", &index)?;
+    let mut seen = 0usize;
+    fn count(ns: &[Node], index: &HashMap<String, Kind>, seen: &mut usize) {
+        for n in ns {
+            if index.contains_key(&n.rel) {
+                *seen += 1;
+            }
+            count(&n.kids, index, seen);
+        }
+    }
+    count(&nodes, &index, &mut seen);
+    if seen != index.len() {
+        return Err("scratch tree differs from the intended tree".into());
+    }
+    Ok(nodes)
+}
+
+/// "a.sol lib(b.sol c.t.sol) z.sol" : names in listing order
+fn signature(ns: &[Node]) -> String {
+    ns.iter().map(|n| if n.is_dir() { format!("{}({})", n.name, signature(&n.kids)) } else { n.name.clone() }).collect::<Vec<_>>().join(" ")
+}
+
+#[derive(Clone, Debug)]
+struct FileRef {
+    rel: String,
+    name: String,
+    content: Content,
+}
+
+fn files_of(ns: &[Node], out: &mut Vec<FileRef>) {
+    for n in ns {
+        match n.kind {
+            Kind::Dir => files_of(&n.kids, out),
+            Kind::File(c) => out.push(FileRef { rel: n.rel.clone(), name: n.name.clone(), content: c }),
+        }
+    }
+}
+
+/// findings the contract expects from this file for p (empty for ineligible files)
+fn file_lines<'a>(orc: &'a Oracle, name: &str, c: Content, p: Pat) -> &'a [i64] {
+    match c {
+        Content::Src(k) if eligible(name) => orc.lines(k, p),
+        _ => &[],
+    }
+}
+
+fn node_has(n: &Node, p: Pat, orc: &Oracle) -> bool {
+    match n.kind {
+        Kind::File(c) => !file_lines(orc, &n.name, c, p).is_empty(),
+        Kind::Dir => n.kids.iter().any(|k| node_has(k, p, orc)),
+    }
+}
+
+fn node_pats(n: &Node, orc: &Oracle, all: &[Pat]) -> BTreeSet<Pat> {
+    all.iter().cloned().filter(|p| node_has(n, *p, orc)).collect()
+}
+
+/// listing interleavings (of entries that share a pattern with findings) observed in this tree
+fn coverage(kids: &[Node], depth: usize, orc: &Oracle, all: &[Pat], out: &mut BTreeSet<String>) {
+    let lvl = if depth == 0 { "root" } else { "nested" };
+    let rs: Vec<(bool, BTreeSet<Pat>)> = kids.iter().map(|k| (k.is_dir(), node_pats(k, orc, all))).collect();
+    let n = rs.len();
+    for i in 0..n {
+        for j in i + 1..n {
+            let ij: BTreeSet<Pat> = rs[i].1.intersection(&rs[j].1).cloned().collect();
+            if ij.is_empty() {
+                continue;
+            }
+            let c = match (rs[i].0, rs[j].0) {
+                (false, true) => "file-before-dir",
+                (true, false) => "dir-before-file",
+                (true, true) => "dir-before-dir",
+                (false, false) => "file-before-file",
+            };
+            out.insert(format!("{}:{}", lvl, c));
+            for k in j + 1..n {
+                if ij.intersection(&rs[k].1).next().is_none() {
+                    continue;
+                }
+                match (rs[i].0, rs[j].0, rs[k].0) {
+                    (false, true, false) => {
+                        out.insert(format!("{}:file-dir-file", lvl));
+                    }
+                    (true, false, true) => {
+                        out.insert(format!("{}:dir-file-dir", lvl));
+                    }
+                    _ => {}
+                }
+            }
+        }
+    }
+    for k in kids {
+        if k.is_dir() {
+            if k.kids.is_empty() {
+                out.insert("empty-sub-directory".into());
+            }
+            if k.name.to_lowercase().contains(".sol") {
+                out.insert("directory-named-like-a-file".into());
+            }
+            coverage(&k.kids, depth + 1, orc, all, out);
+        }
+    }
+}
+
+const REQUIRED_INTERLEAVINGS: [&str; 4] = ["file-before-dir", "dir-before-file", "file-dir-file", "dir-file-dir"];
+
+// ------------------------------------------------------------------------------------------------
+// C03: comparison with the union of the per-file results
+// ------------------------------------------------------------------------------------------------
+
+struct Disc {
+    key: String,
+    what: String,
+    expected: String,
+    actual: String,
+}
+
+fn fmt_entries(l: &[(String, Vec<i64>)]) -> String {
+    let mut v: Vec<String> = l.iter().map(|(n, s)| format!("{:?}{:?}", n, s)).collect();
+    v.sort();
+    format!("[{}]", v.join(", "))
+}
+
+static PROBE_CACHE: Mutex<Option<HashMap<String, bool>>> = Mutex::new(None);
+
+/// Is the file reported when it is the ONLY file of the tree (same relative path)? Separates "never analysed"
+/// (a selection matter) from "analysed but lost on the way up" (a merge matter).
+fn reported_when_alone(f: &FileRef, cat: u8, orc: &Oracle) -> bool {
+    let key = format!("{}|{}|{}", f.rel, f.content.code(), cat);
+    if let Some(v) = PROBE_CACHE.lock().unwrap().get_or_insert_with(HashMap::new).get(&key) {
+        return *v;
+    }
+    let pats = orc.all(cat);
+    let sc = Scratch::new();
+    let t = Tree { ents: vec![Ent { path: f.rel.clone(), kind: Kind::File(f.content) }] };
+    let present = match build(&t, sc.path()) {
+        Err(_) => true,
+        Ok(()) => match guarded(|| real_dir(cat, &sc.path_str(), &pats)) {
+            Ok(res) => res.iter().any(|(_, _, l)| l.iter().any(|(n, _)| *n == f.name)),
+            Err(_) => false,
+        },
+    };
+    PROBE_CACHE.lock().unwrap().get_or_insert_with(HashMap::new).insert(key, present);
+    present
+}
+
+/// Some file carrying (name, lines) for p whose findings were accumulated BEFORE a later-listed sub-directory
+/// that also has findings for p: returns (file, that sub-directory)
+fn replaced_witness(kids: &[Node], p: Pat, name: &str, lines: &[i64], orc: &Oracle) -> Option<(String, String)> {
+    fn carries(n: &Node, p: Pat, name: &str, lines: &[i64], orc: &Oracle) -> Option<String> {
+        match n.kind {
+            Kind::File(c) => {
+                if n.name == name && file_lines(orc, &n.name, c, p) == lines {
+                    Some(n.rel.clone())
+                } else {
+                    None
+                }
+            }
+            Kind::Dir => n.kids.iter().find_map(|k| carries(k, p, name, lines, orc)),
+        }
+    }
+    for (i, k) in kids.iter().enumerate() {
+        if let Some(f) = carries(k, p, name, lines, orc) {
+            if let Some(s) = kids[i + 1..].iter().find(|s| s.is_dir() && node_has(s, p, orc)) {
+                return Some((f, s.rel.clone()));
+            }
+        }
+        if k.is_dir() {
+            if let Some(w) = replaced_witness(&k.kids, p, name, lines, orc) {
+                return Some(w);
+            }
+        }
+    }
+    None
+}
+
+fn check_c03(dir: &str, nodes: &[Node], cat: u8, pats: &[Pat], orc: &Oracle) -> Vec<Disc> {
+    let cname = CAT_NAMES[cat as usize];
+    let mut out: Vec<Disc> = vec![];
+    let mut files = vec![];
+    files_of(nodes, &mut files);
+    for f in &files {
+        if let Content::Src(k) = f.content {
+            if let Some((_, p)) = orc.file_number_matters.iter().find(|(s, p)| *s == k && pats.contains(p)) {
+                out.push(Disc {
+                    key: "c03:file-number-matters".into(),
+                    what: format!("{}: the per-file result for {} depends on the file_number argument (source s{})", cname, pat_name(*p), k),
+                    expected: "analyze_for_*(src, n, p) independent of n".into(),
+                    actual: "differs between n = 0 and another n".into(),
+                });
+            }
+        }
+    }
+    let actual = match guarded(|| real_dir(cat, dir, pats)) {
+        Ok(a) => a,
+        Err(msg) => {
+            out.push(Disc {
+                key: format!("c03:panic:{}", panic_kind(&msg)),
+                what: format!("{}: analyze_dir panics on a tree whose eligible files are all analysable one by one", cname),
+                expected: "a result".into(),
+                actual: format!("panic: {}", msg.chars().take(300).collect::<String>()),
+            });
+            return out;
+        }
+    };
+    // expected[p] = multiset of (file name, lines)
+    let mut expected: BTreeMap<Pat, Entries> = BTreeMap::new();
+    for f in &files {
+        for p in pats {
+            let l = file_lines(orc, &f.name, f.content, *p);
+            if !l.is_empty() {
+                expected.entry(*p).or_default().push((f.name.clone(), l.to_vec()));
+            }
+        }
+    }
+    let mut act: BTreeMap<Pat, Entries> = BTreeMap::new();
+    for (p, pname, list) in &actual {
+        if !pats.contains(p) {
+            out.push(Disc {
+                key: "c03:unselected-pattern-in-result".into(),
+                what: format!("{}: the result has the key {} which was not selected", cname, pname),
+                expected: format!("keys within {}", orc.spec(cat, pats)),
+                actual: format!("{} -> {}", pname, fmt_entries(list)),
+            });
+            continue;
+        }
+        if list.is_empty() {
+            out.push(Disc {
+                key: "c03:empty-list".into(),
+                what: format!("{}: {} maps to an empty list", cname, pname),
+                expected: "no key without findings".into(),
+                actual: format!("{} -> []", pname),
+            });
+        }
+        act.entry(*p).or_default().extend(list.iter().cloned());
+    }
+    let empty: Entries = vec![];
+    for p in pats {
+        let e = expected.get(p).unwrap_or(&empty);
+        let a = act.get(p).unwrap_or(&empty);
+        let mut counts: BTreeMap<(String, Vec<i64>), (usize, usize)> = BTreeMap::new();
+        for x in e {
+            counts.entry(x.clone()).or_default().0 += 1;
+        }
+        for x in a {
+            counts.entry(x.clone()).or_default().1 += 1;
+        }
+        if counts.values().all(|(x, y)| x == y) {
+            continue;
+        }
+        let es = format!("{} -> {}", pat_name(*p), fmt_entries(e));
+        let as_ = format!("{} -> {}", pat_name(*p), fmt_entries(a));
+        let mut wrong_lines: Vec<String> = vec![];
+        for ((name, lines), (ne, na)) in &counts {
+            if na <= ne {
+                continue;
+            }
+            let (key, what) = if *ne > 0 {
+                ("c03:duplicate-entry".to_string(), format!("({:?}, {:?}) is reported {} times for {} file(s)", name, lines, na, ne))
+            } else if files.iter().any(|f| f.name == *name && !eligible(&f.name)) {
+                ("c03:ineligible-file-in-result".to_string(), format!("{:?} is not an eligible file but is reported", name))
+            } else if e.iter().any(|(n, _)| n == name) {
+                wrong_lines.push(name.clone());
+                ("c03:wrong-line-set".to_string(), format!("{:?} is reported with lines {:?}, analysed on its own it yields other lines", name, lines))
+            } else {
+                ("c03:unexpected-entry".to_string(), format!("({:?}, {:?}) is reported but no eligible file yields it", name, lines))
+            };
+            out.push(Disc { key, what: format!("{}/{}: {}", cname, pat_name(*p), what), expected: es.clone(), actual: as_.clone() });
+        }
+        for ((name, lines), (ne, na)) in &counts {
+            if na >= ne || wrong_lines.contains(name) {
+                continue;
+            }
+            let never: Vec<&FileRef> = files
+                .iter()
+                .filter(|f| f.name == *name && file_lines(orc, &f.name, f.content, *p) == lines.as_slice())
+                .filter(|f| !reported_when_alone(f, cat, orc))
+                .collect();
+            let (key, what) = if let Some(f) = never.first() {
+                ("c03:missing-entry:file-never-analysed".to_string(), format!("({:?}, {:?}) is missing, and {:?} is not reported even when it is the only file of the tree", name, lines, f.rel))
+            } else if let Some((f, s)) = replaced_witness(nodes, *p, name, lines, orc) {
+                (
+                    "c03:subdir-result-replaces-parent-entries".to_string(),
+                    format!("the findings of {:?} are gone: the sub-directory {:?}, listed later in the same directory, also has findings for the pattern and its result replaced what had been accumulated", f, s),
+                )
+            } else {
+                ("c03:missing-entry".to_string(), format!("({:?}, {:?}) is missing ({} expected, {} reported) although the file is reported when it is the only file of the tree", name, lines, ne, na))
+            };
+            out.push(Disc { key, what: format!("{}/{}: {}", cname, pat_name(*p), what), expected: es.clone(), actual: as_.clone() });
+        }
+    }
+    out
+}
+
+// ------------------------------------------------------------------------------------------------
+// C16: ineligible files are inert, eligible ones are analysed
+// ------------------------------------------------------------------------------------------------
+
+/// why an eligible file may have been passed over; `fine_at_top` = the same file IS analysed at the top level
+fn skip_reason(rel: &str, fine_at_top: bool) -> String {
+    let name = base_name(rel);
+    let lower = name.to_lowercase();
+    let stem = &lower[..lower.len().saturating_sub(4)];
+    if fine_at_top {
+        if rel[..rel.len() - name.len()].to_lowercase().contains(".sol") {
+            "inside-directory-named-like-a-file".into()
+        } else {
+            "inside-sub-directory".into()
+        }
+    } else if lower.contains(".t.sol") {
+        "t-sol-inside-name".into()
+    } else if name == ".sol" {
+        "name-is-only-the-extension".into()
+    } else if stem.contains(".sol") {
+        "sol-twice-in-name".into()
+    } else if !name.is_ascii() || name.contains(' ') {
+        "name-with-space-or-non-ascii".into()
+    } else {
+        "plain-name".into()
+    }
+}
+
+fn ineligible_class(name: &str) -> &'static str {
+    let lower = name.to_lowercase();
+    if name.ends_with(".t.sol") {
+        "foundry-test-file"
+    } else if lower.ends_with(".t.sol") {
+        "foundry-test-file-other-letter-case"
+    } else if lower.ends_with(".sol") {
+        "extension-in-other-letter-case"
+    } else if lower.contains(".sol") {
+        "sol-not-at-the-end"
+    } else {
+        "other-name"
+    }
+}
+
+fn normalise(res: &[(Pat, String, Entries)]) -> BTreeMap<String, Vec<(String, Vec<i64>)>> {
+    let mut m: BTreeMap<String, Vec<(String, Vec<i64>)>> = BTreeMap::new();
+    for (_, pname, l) in res {
+        if l.is_empty() {
+            continue;
+        }
+        let e = m.entry(pname.clone()).or_default();
+        e.extend(l.iter().cloned());
+        e.sort();
+    }
+    m
+}
+
+fn fmt_map(m: &BTreeMap<String, Vec<(String, Vec<i64>)>>) -> String {
+    let s = m.iter().map(|(k, v)| format!("{} -> {}", k, fmt_entries(v))).collect::<Vec<_>>().join("; ");
+    if s.is_empty() {
+        "(no findings at all)".to_string()
+    } else if s.chars().count() > 900 {
+        format!("{}...", s.chars().take(900).collect::<String>())
+    } else {
+        s
+    }
+}
+
+/// returns (discrepancies, note when the case had to be skipped)
+fn check_c16(full_dir: &str, stripped_dir: &str, files: &[FileRef], cat: u8, pats: &[Pat], orc: &Oracle) -> (Vec<Disc>, Option<String>) {
+    let cname = CAT_NAMES[cat as usize];
+    let mut out = vec![];
+    let stripped = match guarded(|| real_dir(cat, stripped_dir, pats)) {
+        Ok(r) => r,
+        Err(m) => return (out, Some(format!("the tree without ineligible files already panics ({}): not a C16 matter", panic_kind(&m)))),
+    };
+    let full = match guarded(|| real_dir(cat, full_dir, pats)) {
+        Ok(r) => r,
+        Err(m) => {
+            let culprits: Vec<String> = files.iter().filter(|f| !eligible(&f.name)).map(|f| format!("{} ({})", f.rel, f.content.code())).collect();
+            out.push(Disc {
+                key: format!("c16:panic:{}", panic_kind(&m)),
+                what: format!("{}: analyze_dir panics only when the ineligible files are present: {}", cname, culprits.join(", ")),
+                expected: "same result as without the ineligible files".into(),
+                actual: format!("panic: {}", m.chars().take(300).collect::<String>()),
+            });
+            return (out, None);
+        }
+    };
+    let nf = normalise(&full);
+    let ns = normalise(&stripped);
+    let mut explained = false;
+    for (_, pname, l) in &full {
+        for (name, lines) in l {
+            if !eligible(name) && files.iter().any(|f| f.name == *name) {
+                explained = true;
+                out.push(Disc {
+                    key: format!("c16:ineligible-file-analysed:{}", ineligible_class(name)),
+                    what: format!("{}: {:?} is not an eligible file name but it was analysed ({} lines {:?})", cname, name, pname, lines),
+                    expected: fmt_map(&ns),
+                    actual: fmt_map(&nf),
+                });
+            }
+        }
+    }
+    if nf != ns && !explained {
+        out.push(Disc {
+            key: "c16:ineligible-file-changes-result".into(),
+            what: format!("{}: the result differs from the result on the same tree without its ineligible files", cname),
+            expected: fmt_map(&ns),
+            actual: fmt_map(&nf),
+        });
+    }
+    let mut deferred = None;
+    for f in files {
+        let k = match f.content {
+            Content::Src(k) if eligible(&f.name) => k,
+            _ => continue,
+        };
+        if !pats.iter().any(|p| !orc.lines(k, *p).is_empty()) {
+            continue;
+        }
+        if full.iter().any(|(_, _, l)| l.iter().any(|(n, _)| *n == f.name)) {
+            continue;
+        }
+        if reported_when_alone(f, cat, orc) {
+            deferred = Some("an eligible file is reported when it is the only file of the tree but lost in this tree: a merge matter (C03), not a selection matter".to_string());
+            continue;
+        }
+        out.push(Disc {
+            key: format!("c16:eligible-file-skipped:{}", skip_reason(&f.rel, f.rel.contains('/') && reported_when_alone(&FileRef { rel: f.name.clone(), name: f.name.clone(), content: f.content }, cat, orc))),
+            what: format!("{}: {:?} ends in \".sol\" and is not a \".t.sol\" file, it has findings when analysed on its own, but analyze_dir never reports it, not even as the only file of the tree", cname, f.rel),
+            expected: format!("{:?} analysed", f.name),
+            actual: fmt_map(&nf),
+        });
+    }
+    (out, deferred)
+}
+
+// ------------------------------------------------------------------------------------------------
+// generator: shapes, names chosen for a listing order, contents
+// ------------------------------------------------------------------------------------------------
+
+#[derive(Clone, Debug)]
+enum Sh {
+    F,
+    D(Vec<Sh>),
+}
+
+/// ordered forests with exactly k entries; directories may nest `dl` more levels
+fn forests(k: usize, dl: usize, memo: &mut HashMap<(usize, usize), Vec<Vec<Sh>>>) -> Vec<Vec<Sh>> {
+    if k == 0 {
+        return vec![vec![]];
+    }
+    if let Some(v) = memo.get(&(k, dl)) {
+        return v.clone();
+    }
+    let mut out = vec![];
+    for rest in forests(k - 1, dl, memo) {
+        let mut v = vec![Sh::F];
+        v.extend(rest);
+        out.push(v);
+    }
+    if dl > 0 {
+        for j in 0..k {
+            let inner = forests(j, dl - 1, memo);
+            let rest = forests(k - 1 - j, dl, memo);
+            for i in &inner {
+                for r in &rest {
+                    let mut v = vec![Sh::D(i.clone())];
+                    v.extend(r.iter().cloned());
+                    out.push(v);
+                }
+            }
+        }
+    }
+    memo.insert((k, dl), out.clone());
+    out
+}
+
+const PLAIN_ELIGIBLE: [&str; 22] = [
+    "a.sol", "b.sol", "c.sol", "k.sol", "m.sol", "Token.sol", "Vault.sol", "ERC20.sol", "my token.sol", "na\u{ef}ve.sol", "\u{5408}\u{7ea6}.sol", "z9.sol",
+    "f0.sol", "f1.sol", "f2.sol", "f3.sol", "f4.sol", "f5.sol", "f6.sol", "f7.sol", "f8.sol", "f9.sol",
+];
+/// eligible by the property text, each for a different reason close to the border
+const CORNER_ELIGIBLE: [&str; 14] = [
+    "notes on a.sol", "x.t.sol.bak.sol", "t.sol", ".sol", "at.sol", "a.t.sol.sol", "A.T.Sol.sol", "a.SOL.sol", "a..sol", "my.t.sol copy.sol", "x.T.SOL.old.sol", "\u{e9}.t.sol.\u{e9}.sol", "a.tsol.sol", "a.sol.sol",
+];
+const INELIGIBLE: [&str; 26] = [
+    "a.t.sol", "A.T.Sol", "a.T.SOL", "b.T.sol", "c.t.Sol", ".t.sol", "A.SOL", "a.Sol", "a.sol.txt", "asol", "a.sol~", "a.sol ", "sol", "a.so", "a.sol.", "a.sol.t", "x.t.sol.bak", "README.md", "a.json",
+    ".gitignore", "Makefile", "my test.t.sol", "\u{fc}n\u{ef}.t.sol", "\u{5408}\u{7ea6}.SOL", "a.sol.t.sol", "x.sol.T.SOL",
+];
+const PLAIN_INELIGIBLE: [&str; 6] = ["a.t.sol", "README.md", "notes.txt", "A.SOL", "b.t.sol", "a.sol.txt"];
+const DIR_NAMES: [&str; 22] = [
+    "lib", "src", "d.sol", "d.t.sol", "D.SOL", "sub dir", "\u{5b50}", "x", "y", "z", "test", ".hidden", "n0", "n1", "n2", "n3", "n4", "n5", "n6", "n7", "n8", "n9",
+];
+/// labellings (names + contents) per enumerated shape
+const LABELLINGS: usize = 3;
+const JUNK: [Content; 4] =[Content::Bin, Content::BadUtf8, Content::Garbage, Content::Empty];
+
+#[derive(Clone, Copy, PartialEq, Eq)]
+enum Mode {
+    C03,
+    C16,
+}
+
+struct Pools {
+    /// class 0 = directory names, 1 = eligible file names, 2 = ineligible file names; each sorted by listing rank
+    by_class: [Vec<(usize, String)>; 3],
+}
+
+/// rank of every pool name in a real listing: on a hashed directory the relative order of two names is a property
+/// of the names. Also reports whether creation order changed the listing.
+fn measure_ranks(names: &[String]) -> Result<(HashMap<String, usize>, bool), String> {
+    let list = |order: &[String]| -> Result<Vec<String>, String> {
+        let sc = Scratch::new();
+        for n in order {
+            fs::write(sc.path().join(n), b"").map_err(|e| format!("probe {:?}: {}", n, e))?;
+        }
+        let mut v = vec![];
+        for e in fs::read_dir(sc.path()).map_err(|e| e.to_string())? {
+            v.push(e.map_err(|e| e.to_string())?.file_name().to_str().ok_or("non UTF-8")?.to_string());
+        }
+        Ok(v)
+    };
+    let a = list(names)?;
+    let mut rev = names.to_vec();
+    rev.reverse();
+    let b = list(&rev)?;
+    Ok((a.iter().enumerate().map(|(i, n)| (n.clone(), i)).collect(), a != b))
+}
+
+fn pools(mode: Mode, ranks: &HashMap<String, usize>) -> Pools {
+    let mk = |v: Vec<&str>| -> Vec<(usize, String)> {
+        let mut o: Vec<(usize, String)> = v.iter().map(|n| (*ranks.get(*n).unwrap_or(&0), n.to_string())).collect();
+        o.sort();
+        o
+    };
+    let (e, i): (Vec<&str>, Vec<&str>) = match mode {
+        Mode::C03 => (PLAIN_ELIGIBLE.to_vec(), PLAIN_INELIGIBLE.to_vec()),
+        Mode::C16 => (PLAIN_ELIGIBLE[..9].iter().chain(CORNER_ELIGIBLE.iter()).cloned().collect(), INELIGIBLE.to_vec()),
+    };
+    Pools { by_class: [mk(DIR_NAMES.to_vec()), mk(e), mk(i)] }
+}
+
+fn all_pool_names() -> Vec<String> {
+    let mut v: Vec<String> = vec![];
+    for n in PLAIN_ELIGIBLE.iter().chain(CORNER_ELIGIBLE.iter()).chain(INELIGIBLE.iter()).chain(PLAIN_INELIGIBLE.iter()).chain(DIR_NAMES.iter()) {
+        if !v.contains(&n.to_string()) {
+            v.push(n.to_string());
+        }
+    }
+    v
+}
+
+/// names for the children of one directory such that the listing shows them in the given class order
+fn choose_names(classes: &[usize], pools: &Pools, rng: &mut Rng) -> Vec<String> {
+    fn feasible(classes: &[usize], from: usize, mut prev: i64, used: &[String], pools: &Pools) -> bool {
+        let mut used: Vec<String> = used.to_vec();
+        for c in &classes[from..] {
+            match pools.by_class[*c].iter().find(|(r, n)| (*r as i64) > prev && !used.contains(n)) {
+                Some((r, n)) => {
+                    prev = *r as i64;
+                    used.push(n.clone());
+                }
+                None => return false,
+            }
+        }
+        true
+    }
+    let mut chosen: Vec<String> = vec![];
+    let mut prev: i64 = -1;
+    for (i, c) in classes.iter().enumerate() {
+        let mut cands: Vec<&(usize, String)> = vec![];
+        for cand in pools.by_class[*c].iter().filter(|(r, n)| (*r as i64) > prev && !chosen.contains(n)) {
+            let mut u = chosen.clone();
+            u.push(cand.1.clone());
+            if feasible(classes, i + 1, cand.0 as i64, &u, pools) {
+                cands.push(cand);
+            }
+        }
+        let pick = if cands.is_empty() {
+            // the order cannot be realised with this pool: any free name (the observed order is what counts)
+            let free: Vec<&(usize, String)> = pools.by_class[*c].iter().filter(|(_, n)| !chosen.contains(n)).collect();
+            (*rng.pick(&free)).clone()
+        } else {
+            let w = if rng.below(2) == 0 { cands.len() } else { cands.len().min(4) };
+            cands[rng.below(w)].clone()
+        };
+        prev = prev.max(pick.0 as i64);
+        chosen.push(pick.1);
+    }
+    chosen
+}
+
+fn label(shape: &[Sh], prefix: &str, mode: Mode, pools: &Pools, rng: &mut Rng, out: &mut Vec<Ent>) {
+    let p_inel = if mode == Mode::C03 { 5 } else { 2 };
+    let classes: Vec<usize> = shape
+        .iter()
+        .map(|s| match s {
+            Sh::D(_) => 0,
+            Sh::F => {
+                if rng.below(p_inel) == 0 {
+                    2
+                } else {
+                    1
+                }
+            }
+        })
+        .collect();
+    let names = choose_names(&classes, pools, rng);
+    for ((s, c), name) in shape.iter().zip(classes.iter()).zip(names.iter()) {
+        let path = format!("{}{}", prefix, name);
+        match s {
+            Sh::F => {
+                // C03 trees: ineligible files hold valid sources too (being analysed must show up as an entry, not as a panic)
+                let content = if *c == 1 || mode == Mode::C03 || rng.below(2) == 0 { Content::Src(rng.below(SOURCES.len())) } else { *rng.pick(&JUNK) };
+                out.push(Ent { path, kind: Kind::File(content) });
+            }
+            Sh::D(inner) => {
+                out.push(Ent { path: path.clone(), kind: Kind::Dir });
+                label(inner, &format!("{}/", path), mode, pools, rng, out);
+            }
+        }
+    }
+}
+
+fn t(spec: &[(&str, &str)]) -> Tree {
+    Tree { ents: spec.iter().map(|(c, p)| Ent { path: p.to_string(), kind: if *c == "d" { Kind::Dir } else { Kind::File(Content::parse(c).unwrap()) } }).collect() }
+}
+
+struct Case {
+    tree: Tree,
+    /// listing the generator aimed at (None for hand-written cases)
+    desired: Option<String>,
+    sets: Vec<(u8, Vec<Pat>)>,
+    origin: &'static str,
+}
+
+fn desired_signature(tree: &Tree) -> String {
+    // entries of a labelled tree are in depth-first order of the intended listing
+    fn rec(ents: &[Ent], prefix: &str) -> String {
+        let mut parts = vec![];
+        for e in ents {
+            if let Some(rest) = e.path.strip_prefix(prefix) {
+                if rest.contains('/') {
+                    continue;
+                }
+                match e.kind {
+                    Kind::Dir => parts.push(format!("{}({})", rest, rec(ents, &format!("{}/", e.path)))),
+                    Kind::File(_) => parts.push(rest.to_string()),
+                }
+            }
+        }
+        parts.join(" ")
+    }
+    rec(&tree.ents, "")
+}
+
+fn pattern_sets(orc: &Oracle, rng: &mut Rng, idx: usize, mode: Mode) -> Vec<(u8, Vec<Pat>)> {
+    let mut sets = vec![];
+    for cat in 0..3u8 {
+        let all = orc.all(cat);
+        sets.push((cat, all.clone()));
+        if mode == Mode::C16 {
+            continue;
+        }
+        let mut sub: Vec<Pat> = all.iter().cloned().filter(|_| rng.below(2) == 0).collect();
+        if sub.is_empty() && !all.is_empty() {
+            sub.push(*rng.pick(&all));
+        }
+        if sub != all {
+            sets.push((cat, sub));
+        }
+        if idx % 7 == 0 {
+            sets.push((cat, vec![]));
+        }
+    }
+    sets
+}
+
+fn generate(mode: Mode, tier: &str, seed: u64, orc: &Oracle, ranks: &HashMap<String, usize>) -> (Vec<Case>, usize, usize) {
+    let mut rng = Rng::new(seed ^ if mode == Mode::C03 { 0x0c03 } else { 0x0c16 });
+    let pl = pools(mode, ranks);
+    let mut trees: Vec<(Tree, Option<String>, &'static str)> = vec![];
+    // hand-written: the same name in several directories, directories named like files, empty directories
+    for d in DIR_NAMES {
+        let f = format!("{}/a.sol", d);
+        let g = format!("{}/w.sol", d);
+        trees.push((t(&[("d", d), ("s0", f.as_str()), ("s2", "k.sol")]), None, "directory-names"));
+        trees.push((t(&[("s3", "c.sol"), ("s0", g.as_str()), ("s2", "Vault.sol"), ("d", d)]), None, "directory-names"));
+    }
+    for spec in [
+        vec![("s0", "a.sol"), ("s0", "lib/a.sol")],
+        vec![("s0", "a.sol"), ("s3", "lib/a.sol")],
+        vec![("s0", "x/a.sol"), ("s0", "y/a.sol"), ("s0", "y/z/a.sol")],
+        vec![("s0", "a.sol"), ("d", "lib"), ("d", "src/x/y")],
+        vec![("d", "lib")],
+        vec![("s4", "a.sol"), ("s4", "lib/b.sol")],
+        vec![("s0", "x/y/z/a.sol"), ("s2", "x/y/b.sol"), ("s3", "x/c.sol"), ("s1", "k.sol")],
+    ] {
+        trees.push((t(&spec), None, "hand-written"));
+    }
+    if mode == Mode::C16 {
+        // every name of the list x every kind of content, alone, inside a sub-directory, and next to other files
+        let mut names: Vec<&str> = PLAIN_ELIGIBLE[..9].to_vec();
+        names.extend(CORNER_ELIGIBLE.iter());
+        names.extend(INELIGIBLE.iter());
+        for n in names {
+            let contents: Vec<Content> =
+                if eligible(n) { vec![Content::Src(0), Content::Src(1)] } else { vec![Content::Src(0), Content::Src(3), Content::Bin, Content::BadUtf8, Content::Garbage, Content::Empty] };
+            for c in contents {
+                let code = c.code();
+                let sub = format!("lib/{}", n);
+                let deep = format!("d.sol/n0/{}", n);
+                let code = code.as_str();
+                trees.push((t(&[(code, n)]), None, "name-x-content"));
+                trees.push((t(&[(code, sub.as_str())]), None, "name-x-content"));
+                trees.push((t(&[(code, n), ("s2", "k.sol"), ("s3", "lib/m.sol")]), None, "name-x-content"));
+                trees.push((t(&[("s1", "b.sol"), (code, deep.as_str()), ("s2", "d.sol/k.sol")]), None, "name-x-content"));
+            }
+        }
+    }
+    // enumerated shapes, names chosen so that the listing shows the shape's order
+    let n = if tier == "thorough" { 7 } else { 5 };
+    let labellings = LABELLINGS;
+    let mut memo = HashMap::new();
+    let mut shapes = 0usize;
+    // a few larger shapes aimed at interleavings INSIDE a sub-directory (beyond the entry bound, both tiers)
+    let f = || Sh::F;
+    let df = || Sh::D(vec![Sh::F]);
+    let targeted: Vec<Vec<Sh>> = vec![
+        vec![Sh::D(vec![df(), f(), df()])],
+        vec![Sh::D(vec![f(), df(), f()])],
+        vec![f(), Sh::D(vec![df(), f(), df()]), f()],
+        vec![df(), f(), df(), f(), df()],
+        vec![Sh::D(vec![Sh::D(vec![f(), df(), f(), df()])]), f()],
+    ];
+    for shape in &targeted {
+        for _ in 0..6 {
+            let mut ents = vec![];
+            label(shape, "", mode, &pl, &mut rng, &mut ents);
+            let tree = Tree { ents };
+            let d = desired_signature(&tree);
+            trees.push((tree, Some(d), "targeted-interleaving"));
+        }
+    }
+    for k in 1..=n {
+        for shape in forests(k, 3, &mut memo) {
+            shapes += 1;
+            for _ in 0..(if k <= 5 { 2 * labellings } else { labellings }) {
+                let mut ents = vec![];
+                label(&shape, "", mode, &pl, &mut rng, &mut ents);
+                let tree = Tree { ents };
+                let d = desired_signature(&tree);
+                trees.push((tree, Some(d), "enumerated-shape"));
+            }
+        }
+    }
+    // small to large (stable), then vary the creation order
+    trees.sort_by_key(|(t, _, _)| t.ents.len());
+    let mut cases = vec![];
+    for (idx, (mut tree, desired, origin)) in trees.into_iter().enumerate() {
+        match idx % 3 {
+            1 => tree.ents.reverse(),
+            2 => rng.shuffle(&mut tree.ents),
+            _ => {}
+        }
+        let sets = pattern_sets(orc, &mut rng, idx, mode);
+        cases.push(Case { tree, desired, sets, origin });
+    }
+    (cases, shapes, n)
+}
+
+// ------------------------------------------------------------------------------------------------
+// running
+// ------------------------------------------------------------------------------------------------
+
+fn par_map<C: Sync, T: Send>(cases: &[C], f: impl Fn(usize, &C) -> T + Sync) -> Vec<T> {
+    let n = cases.len();
+    let next = AtomicUsize::new(0);
+    let out: Mutex<Vec<Option<T>>> = Mutex::new((0..n).map(|_| None).collect());
+    let threads = std::thread::available_parallelism().map(|x| x.get()).unwrap_or(2).clamp(1, 8);
+    std::thread::scope(|s| {
+        for _ in 0..threads {
+            s.spawn(|| loop {
+                let i = next.fetch_add(1, Ordering::SeqCst);
+                if i >= n {
+                    break;
+                }
+                let v = f(i, &cases[i]);
+                out.lock().unwrap()[i] = Some(v);
+            });
+        }
+    });
+    out.into_inner().unwrap().into_iter().map(|x| x.expect("case not executed")).collect()
+}
+
+#[derive(Default)]
+struct CaseOut {
+    evals: u64,
+    nontrivial: Vec<String>,
+    cover: BTreeSet<String>,
+    viol: Vec<(Disc, Vec<String>)>,
+    sample: Option<J>,
+    order_realised: Option<bool>,
+    notes: Vec<String>,
+    harness_error: Option<String>,
+}
+
+fn all_pats(orc: &Oracle) -> Vec<Pat> {
+    (0..3u8).flat_map(|c| orc.all(c)).collect()
+}
+
+fn run_case_c03(case: &Case, orc: &Oracle) -> CaseOut {
+    let mut o = CaseOut::default();
+    let sc = Scratch::new();
+    let nodes = match build_and_observe(&case.tree, &sc) {
+        Ok(n) => n,
+        Err(e) => {
+            o.harness_error = Some(e);
+            return o;
+        }
+    };
+    let sig = signature(&nodes);
+    o.order_realised = case.desired.as_ref().map(|d| *d == sig);
+    let every = all_pats(orc);
+    coverage(&nodes, 0, orc, &every, &mut o.cover);
+    let mut files = vec![];
+    files_of(&nodes, &mut files);
+    let with_findings: Vec<&FileRef> = files.iter().filter(|f| every.iter().any(|p| !file_lines(orc, &f.name, f.content, *p).is_empty())).collect();
+    let mut names: Vec<&str> = files.iter().map(|f| f.name.as_str()).collect();
+    names.sort();
+    let n_names = names.len();
+    names.dedup();
+    if names.len() < n_names {
+        o.cover.insert("same-file-name-in-several-directories".into());
+    }
+    let shares = o.cover.iter().any(|c| c.starts_with("root:") || c.starts_with("nested:"));
+    let crosses_dirs = with_findings.iter().any(|f| f.rel.contains('/'));
+    if shares || (crosses_dirs && !with_findings.is_empty()) {
+        o.nontrivial.push(case.tree.canonical());
+    }
+    let dir = sc.path_str();
+    for (cat, pats) in &case.sets {
+        let discs = check_c03(&dir, &nodes, *cat, pats, orc);
+        o.evals += 1;
+        for d in discs {
+            o.viol.push((d, vec!["c03-case".into(), format!("@src:{}", case.tree.ser()), orc.spec(*cat, pats)]));
+        }
+    }
+    o.sample = Some(J::obj(vec![
+        ("tree", J::s(case.tree.ser())),
+        ("listing_observed", J::s(sig)),
+        ("origin", J::s(case.origin)),
+        ("pattern_sets", J::arr_s(case.sets.iter().map(|(c, p)| orc.spec(*c, p)))),
+        ("interleavings", J::arr_s(o.cover.iter().cloned())),
+    ]));
+    o
+}
+
+fn run_case_c16(case: &Case, orc: &Oracle) -> CaseOut {
+    let mut o = CaseOut::default();
+    let sc_full = Scratch::new();
+    let sc_strip = Scratch::new();
+    let nodes = match build_and_observe(&case.tree, &sc_full) {
+        Ok(n) => n,
+        Err(e) => {
+            o.harness_error = Some(e);
+            return o;
+        }
+    };
+    let stripped = case.tree.strip_ineligible();
+    if let Err(e) = build_and_observe(&stripped, &sc_strip) {
+        o.harness_error = Some(e);
+        return o;
+    }
+    let sig = signature(&nodes);
+    o.order_realised = case.desired.as_ref().map(|d| *d == sig);
+    let every = all_pats(orc);
+    coverage(&nodes, 0, orc, &every, &mut o.cover);
+    let mut files = vec![];
+    files_of(&nodes, &mut files);
+    for f in &files {
+        if eligible(&f.name) {
+            if CORNER_ELIGIBLE.contains(&f.name.as_str()) {
+                o.cover.insert(format!("eligible-corner-name:{}", f.name));
+            }
+        } else {
+            o.cover.insert(format!("ineligible:{}:{}", ineligible_class(&f.name), match f.content {
+                Content::Src(_) => "valid-solidity-with-findings",
+                Content::Bin => "binary",
+                Content::BadUtf8 => "invalid-utf8",
+                Content::Garbage => "unparseable-text",
+                Content::Empty => "empty",
+            }));
+        }
+    }
+    if case.tree.has_ineligible() || files.iter().any(|f| CORNER_ELIGIBLE.contains(&f.name.as_str())) {
+        o.nontrivial.push(case.tree.canonical());
+    }
+    for (cat, pats) in &case.sets {
+        let (discs, note) = check_c16(&sc_full.path_str(), &sc_strip.path_str(), &files, *cat, pats, orc);
+        o.evals += 1;
+        if let Some(n) = note {
+            o.notes.push(n);
+        }
+        for d in discs {
+            o.viol.push((d, vec!["c16-case".into(), format!("@src:{}", case.tree.ser()), orc.spec(*cat, pats)]));
+        }
+    }
+    o.sample = Some(J::obj(vec![
+        ("tree", J::s(case.tree.ser())),
+        ("tree_without_ineligible_files", J::s(stripped.ser())),
+        ("listing_observed", J::s(sig)),
+        ("origin", J::s(case.origin)),
+    ]));
+    o
+}
+
+fn run(mode: Mode, tier: &str, seed: u64) -> CheckResult {
+    let name = if mode == Mode::C03 { "c03" } else { "c16" };
     let mut r = CheckResult::new(name);
-    r.violate("harness:not-implemented", "check not implemented yet", vec![name.to_string()], String::new(), String::new());
+    let prev_hook = panic::take_hook();
+    install_hook();
+    let orc = Oracle::build();
+    let (ranks, creation_matters) = match measure_ranks(&all_pool_names()) {
+        Ok(x) => x,
+        Err(e) => {
+            r.violate(&format!("harness:{}-scratch-io", name), &format!("cannot probe the listing order: {}", e), vec![name.to_string()], String::new(), String::new());
+            panic::set_hook(prev_hook);
+            return r;
+        }
+    };
+    let misfiled: Vec<String> = PLAIN_ELIGIBLE
+        .iter()
+        .chain(CORNER_ELIGIBLE.iter())
+        .filter(|n| !eligible(n))
+        .chain(INELIGIBLE.iter().chain(PLAIN_INELIGIBLE.iter()).filter(|n| eligible(n)))
+        .map(|n| n.to_string())
+        .chain(DIR_NAMES.iter().filter(|d| PLAIN_ELIGIBLE.contains(d) || CORNER_ELIGIBLE.contains(d) || INELIGIBLE.contains(d) || PLAIN_INELIGIBLE.contains(d)).map(|n| n.to_string()))
+        .collect();
+    if !misfiled.is_empty() {
+        r.violate(&format!("harness:{}-name-list-inconsistent", name), &format!("names filed under the wrong class: {:?}", misfiled), vec![name.to_string()], String::new(), String::new());
+        panic::set_hook(prev_hook);
+        return r;
+    }
+    let (cases, shapes, n) = generate(mode, tier, seed, &orc, &ranks);
+    let outs = par_map(&cases, |_, c| if mode == Mode::C03 { run_case_c03(c, &orc) } else { run_case_c16(c, &orc) });
+    panic::set_hook(prev_hook);
+
+    let mut cover: BTreeMap<String, i64> = BTreeMap::new();
+    let (mut realised, mut not_realised) = (0i64, 0i64);
+    let mut notes: BTreeMap<String, i64> = BTreeMap::new();
+    let mut sampled_origins: Vec<&str> = vec![];
+    for (case, o) in cases.iter().zip(outs.into_iter()) {
+        if let Some(e) = o.harness_error {
+            r.violate(&format!("harness:{}-scratch-io", name), &format!("cannot build or list a scratch tree: {}", e), vec![format!("{}-case", name), format!("@src:{}", case.tree.ser())], String::new(), String::new());
+            continue;
+        }
+        r.evaluations += o.evals;
+        for id in o.nontrivial {
+            r.nontrivial.insert(id);
+        }
+        for c in &o.cover {
+            *cover.entry(c.clone()).or_insert(0) += 1;
+        }
+        match o.order_realised {
+            Some(true) => realised += 1,
+            Some(false) => not_realised += 1,
+            None => {}
+        }
+        for nmsg in o.notes {
+            *notes.entry(nmsg.chars().take(160).collect()).or_insert(0) += 1;
+        }
+        for (d, replay) in o.viol {
+            r.violate(&d.key, &d.what, replay, d.expected, d.actual);
+        }
+        // samples: a few cases of different origin, preferring trees with sub-directories
+        if let Some(s) = o.sample {
+            let interesting = case.tree.ents.len() >= 3 && case.tree.ents.iter().any(|e| e.path.contains('/')) && (mode == Mode::C03 || case.tree.has_ineligible());
+            if interesting && sampled_origins.iter().filter(|x| **x == case.origin).count() < 2 {
+                sampled_origins.push(case.origin);
+                r.sample(s);
+            }
+        }
+    }
+    // the interleavings count as distinct non-trivial situations; the required ones must have been observed
+    for c in cover.keys() {
+        if c.starts_with("root:") || c.starts_with("nested:") {
+            r.nontrivial.insert(format!("interleaving:{}", c));
+        }
+    }
+    let mut missing = vec![];
+    for req in REQUIRED_INTERLEAVINGS {
+        for lvl in ["root", "nested"] {
+            if !cover.contains_key(&format!("{}:{}", lvl, req)) {
+                missing.push(format!("{}:{}", lvl, req));
+            }
+        }
+    }
+    if mode == Mode::C03 {
+        for m in &missing {
+            r.violate(
+                &format!("harness:c03-interleaving-not-observed:{}", m),
+                "the generator never obtained this listing order from fs::read_dir: the bounded check does not cover it",
+                vec!["c03".into()],
+                "every relative order of files and sub-directories observed".into(),
+                "not observed".into(),
+            );
+        }
+    }
+    let bound_common = format!(
+        "directory trees with <= {} entries (files + directories), <= 3 levels of sub-directories: every ordered shape ({} shapes) x {} labellings (twice as many for shapes of <= 5 entries; names chosen so that fs::read_dir lists the entries in the shape's order; contents from {} fixed sources{}), plus 5 larger shapes aimed at interleavings inside a sub-directory (6-9 entries, 6 labellings each) and hand-written trees; 3 creation orders (listing order, reversed, shuffled); all three categories",
+        n,
+        shapes,
+        LABELLINGS,
+        SOURCES.len(),
+        if mode == Mode::C16 { " and 4 kinds of junk" } else { "" }
+    );
+    if mode == Mode::C03 {
+        r.rule = "a case is one comparison of the real analyze_dir(tree, P) with the union of the real analyze_for_*(file, _, p) over the eligible files (multiset per pattern, no empty lists, no unselected keys); distinct_nontrivial counts distinct trees in which findings for one pattern come from a sub-directory or from >= 2 entries of one directory, plus one id per listing interleaving observed through fs::read_dir".into();
+        r.bound = format!("{}; pattern sets per tree and category: all, one seeded random subset, the empty set on every 7th tree", bound_common);
+    } else {
+        r.rule = "a case is one comparison, for one category with all its patterns, of the real analyze_dir on a tree with the real analyze_dir on the same tree without its ineligible files (equal results, no panic), plus: no ineligible name in the result, every eligible file with findings reported (confirmed on the one-file tree before it is called skipped); distinct_nontrivial counts distinct trees holding an ineligible file or an eligible file with a border-line name".into();
+        r.bound = format!(
+            "{}; plus every name of the list ({} eligible, {} ineligible) x every kind of content, alone at the top, alone in a sub-directory, next to other files, and 2 levels down under a directory called d.sol",
+            bound_common,
+            9 + CORNER_ELIGIBLE.len(),
+            INELIGIBLE.len()
+        );
+    }
+    r.exhaustive = false;
+    r.extra.push(("trees".into(), J::Num(cases.len() as i64)));
+    r.extra.push(("shapes_enumerated".into(), J::Num(shapes as i64)));
+    r.extra.push(("observed_through".into(), J::s("fs::read_dir on every directory of every built tree")));
+    r.extra.push(("coverage_observed".into(), J::Obj(cover.iter().map(|(k, v)| (k.clone(), J::Num(*v))).collect())));
+    r.extra.push(("interleavings_required_not_observed".into(), J::arr_s(missing)));
+    r.extra.push(("listing_order_as_intended".into(), J::Num(realised)));
+    r.extra.push(("listing_order_other_than_intended".into(), J::Num(not_realised)));
+    r.extra.push(("listing_order_depends_on_creation_order".into(), J::Bool(creation_matters)));
+    r.extra.push(("creation_orders".into(), J::arr_s(["intended listing order", "reversed", "shuffled"].iter().map(|s| s.to_string()))));
+    r.extra.push(("source_findings".into(), orc.describe_sources()));
+    r.extra.push(("patterns_never_selected_because_a_fixed_source_makes_them_panic".into(), J::arr_s(orc.excluded.iter().map(|p| pat_name(*p)))));
+    r.extra.push(("notes".into(), J::Obj(notes.into_iter().map(|(k, v)| (k, J::Num(v))).collect())));
+    if mode == Mode::C16 {
+        r.extra.push(("eligible_names".into(), J::arr_s(PLAIN_ELIGIBLE[..9].iter().chain(CORNER_ELIGIBLE.iter()).map(|s| s.to_string()))));
+        r.extra.push(("ineligible_names".into(), J::arr_s(INELIGIBLE.iter().map(|s| s.to_string()))));
+        r.extra.push(("directory_names".into(), J::arr_s(DIR_NAMES.iter().map(|s| s.to_string()))));
+    }
+    r.assumptions.push("the per-file entry points analyze_for_* are the oracle for single files (their correctness is other properties' business)".into());
+    r.assumptions.push("eligible files hold one of the fixed parseable sources with a pragma line and no free function".into());
+    r.assumptions.push("file names are valid Unicode; no symbolic links, no unreadable directories; the file system is the one under std::env::temp_dir()".into());
+    if mode == Mode::C16 {
+        r.assumptions.push("a file is called skipped only if it is also unreported as the only file of a tree; losses in larger trees are left to C03".into());
+    }
     r
+}
+
+fn replay(mode: Mode, tree_txt: &str, spec: Option<&str>) -> Result<(bool, String), String> {
+    let prev_hook = panic::take_hook();
+    install_hook();
+    let orc = Oracle::build();
+    let res = (|| -> Result<(bool, String), String> {
+        let tree = Tree::parse(tree_txt)?;
+        let sets = match spec {
+            Some(s) => orc.parse_spec(s)?,
+            None => (0..3u8).map(|c| (c, orc.all(c))).collect(),
+        };
+        let case = Case { tree, desired: None, sets, origin: "replay" };
+        let o = if mode == Mode::C03 { run_case_c03(&case, &orc) } else { run_case_c16(&case, &orc) };
+        if let Some(e) = o.harness_error {
+            return Err(e);
+        }
+        let mut msg = vec![];
+        if let Some(s) = &o.sample {
+            msg.push(s.render());
+        }
+        for n in &o.notes {
+            msg.push(format!("note: {}", n));
+        }
+        for (d, _) in &o.viol {
+            msg.push(format!("VIOLATED {}: {}\n  expected: {}\n  actual:   {}", d.key, d.what, d.expected, d.actual));
+        }
+        if o.viol.is_empty() {
+            msg.push(format!("contract holds ({} comparisons)", o.evals));
+        }
+        Ok((o.viol.is_empty(), msg.join("\n")))
+    })();
+    panic::set_hook(prev_hook);
+    res
+}
+
+/// Returns Some(exit code) when `cmd` belongs to this module.
+pub fn dispatch(cmd: &str, rest: &[String], tier: &str, seed: u64) -> Option<i32> {
+    match cmd {
+        "c03" => {
+            println!("{}", run(Mode::C03, tier, seed).to_json().render());
+            Some(0)
+        }
+        "c16" => {
+            println!("{}", run(Mode::C16, tier, seed).to_json().render());
+            Some(0)
+        }
+        "c03-case" | "c16-case" => {
+            if rest.is_empty() {
+                eprintln!("usage: vxn {} @src:<tree> [<category>:<patterns|*>;..]", cmd);
+                return Some(2);
+            }
+            let mode = if cmd == "c03-case" { Mode::C03 } else { Mode::C16 };
+            match replay(mode, &crate::arg_or_file(&rest[0]), rest.get(1).map(|s| s.as_str())) {
+                Ok((ok, msg)) => {
+                    println!("{}", msg);
+                    Some(if ok { 0 } else { 1 })
+                }
+                Err(e) => {
+                    eprintln!("cannot replay: {}", e);
+                    Some(2)
+                }
+            }
+        }
+        _ => None,
+    }
 }
